@@ -2,13 +2,17 @@
 (`transports/http/parameters.py`) -> `lean/Verif/Gen/HttpParams.lean`, regenerated on every run.
 
 Translated: every `@field_validator("<field>")` method of the class whose body (after the
-docstring) is a sequence of `if <cond>: raise ValueError(...)` statements followed by
+docstring) is a sequence of `if <cond>: raise ...` statements, `assert <cond>` statements, or calls
+`helper(<cond>, ...)` of a module-level helper of the shape `def helper(c, ...): if c: raise ...`,
+followed by
 `return v` or `return v.rstrip("<one char>")`.  Conditions of the supported subset:
 
   not v                                   (str field: empty; numeric field: zero)
   v.startswith("lit") / v.startswith(("a", "b", ...))
   v <op> <int literal>   with <op> in  <  <=  >  >=  ==  !=   (for a float field only against 0,
-                                          so that the scaled-integer reading is exact)
+                                          so that the scaled-integer reading is exact); also literal <op> v
+  v == "" / v != "" / len(v) == 0 / len(v) > 0
+  literals may be module-level constants
   not <cond>,  <cond> and <cond>,  <cond> or <cond>
 
 Anything else is NOT guessed: the field gets a placeholder, `translatable := false`, and the
@@ -42,8 +46,33 @@ def lean_str(s):
     return '"' + s.replace("\\", "\\\\").replace('"', '\\"').replace("\n", "\\n").replace("\r", "\\r").replace("\t", "\\t") + '".toList'
 
 
+CTX = {"consts": {}, "rejecters": set()}
+
+
+def _resolve(e):
+    """a literal, or a module-level name bound to a literal (constants pulled out by a refactor)"""
+    if isinstance(e, ast.Name) and e.id in CTX["consts"]:
+        return CTX["consts"][e.id]
+    return e
+
+
+FLIP = {ast.Lt: ast.Gt, ast.LtE: ast.GtE, ast.Gt: ast.Lt, ast.GtE: ast.LtE, ast.Eq: ast.Eq, ast.NotEq: ast.NotEq}
+
+
 def cond(e, kind):
     """Lean Bool expression for a Python condition on `v` (kind: 'str' | 'int' | 'float')"""
+    if isinstance(e, ast.Compare) and len(e.ops) == 1 and not (isinstance(e.left, ast.Name) and e.left.id == "v") \
+            and isinstance(e.comparators[0], ast.Name) and e.comparators[0].id == "v" and type(e.ops[0]) in FLIP:
+        # literal <op> v  ==  v <flipped op> literal
+        e = ast.Compare(left=e.comparators[0], ops=[FLIP[type(e.ops[0])]()], comparators=[e.left])
+    if isinstance(e, ast.Compare) and len(e.ops) == 1 and isinstance(e.left, ast.Name) and e.left.id == "v" and kind == "str" \
+            and isinstance(e.ops[0], (ast.Eq, ast.NotEq)) and isinstance(_resolve(e.comparators[0]), ast.Constant) \
+            and _resolve(e.comparators[0]).value == "":
+        return "(decide (v = []))" if isinstance(e.ops[0], ast.Eq) else "(!(decide (v = [])))"
+    if isinstance(e, ast.Compare) and len(e.ops) == 1 and kind == "str" and isinstance(e.left, ast.Call) \
+            and getattr(e.left.func, "id", None) == "len" and len(e.left.args) == 1 and getattr(e.left.args[0], "id", None) == "v" \
+            and isinstance(e.comparators[0], ast.Constant) and e.comparators[0].value == 0 and isinstance(e.ops[0], (ast.Eq, ast.NotEq, ast.Gt)):
+        return "(decide (v = []))" if isinstance(e.ops[0], ast.Eq) else "(!(decide (v = [])))"
     if isinstance(e, ast.UnaryOp) and isinstance(e.op, ast.Not):
         if isinstance(e.operand, ast.Name) and e.operand.id == "v":
             return "(decide (v = []))" if kind == "str" else "(decide (v = 0))"
@@ -53,13 +82,13 @@ def cond(e, kind):
         return "(" + op.join(cond(x, kind) for x in e.values) + ")"
     if isinstance(e, ast.Call) and isinstance(e.func, ast.Attribute) and e.func.attr == "startswith" \
             and isinstance(e.func.value, ast.Name) and e.func.value.id == "v" and kind == "str" and len(e.args) == 1 and not e.keywords:
-        a = e.args[0]
-        lits = a.elts if isinstance(a, ast.Tuple) else [a]
+        a = _resolve(e.args[0])
+        lits = [_resolve(x) for x in a.elts] if isinstance(a, ast.Tuple) else [a]
         if not lits or not all(isinstance(x, ast.Constant) and isinstance(x.value, str) for x in lits):
             raise No("startswith argument is not a string literal / tuple of string literals")
         return "(" + " || ".join(f"({lean_str(x.value)}).isPrefixOf v" for x in lits) + ")"
     if isinstance(e, ast.Compare) and len(e.ops) == 1 and isinstance(e.left, ast.Name) and e.left.id == "v" and kind in ("int", "float"):
-        c = e.comparators[0]
+        c = _resolve(e.comparators[0])
         neg = False
         if isinstance(c, ast.UnaryOp) and isinstance(c.op, ast.USub):
             c, neg = c.operand, True
@@ -87,9 +116,16 @@ def translate_validator(fn, kind):
         raise No("does not end with a return")
     guards = []
     for st in body[:-1]:
-        if not (isinstance(st, ast.If) and not st.orelse and len(st.body) == 1 and isinstance(st.body[0], ast.Raise)):
-            raise No(f"statement at line {st.lineno} is not `if <cond>: raise ...`")
-        guards.append(cond(st.test, kind))
+        if isinstance(st, ast.If) and not st.orelse and len(st.body) == 1 and isinstance(st.body[0], ast.Raise):
+            guards.append(cond(st.test, kind))
+        elif isinstance(st, ast.Expr) and isinstance(st.value, ast.Call) and isinstance(st.value.func, ast.Name) \
+                and st.value.func.id in CTX["rejecters"] and st.value.args and not any(isinstance(a, ast.Starred) for a in st.value.args):
+            # `_reject_if(<cond>, message)`: a module-level helper that raises when its first argument holds
+            guards.append(cond(st.value.args[0], kind))
+        elif isinstance(st, ast.Assert):
+            guards.append(f"(!{cond(st.test, kind)})")
+        else:
+            raise No(f"statement at line {st.lineno} is not `if <cond>: raise ...` / a call of a raising helper")
     ret = body[-1].value
     norm = None
     if isinstance(ret, ast.Name) and ret.id == "v":
@@ -112,6 +148,22 @@ def translate_validator(fn, kind):
 def gen(src):
     path = src / "transports" / "http" / "parameters.py"
     tree = ast.parse(path.read_text())
+    CTX["consts"], CTX["rejecters"] = {}, set()
+    for st in tree.body:
+        if isinstance(st, ast.Assign) and len(st.targets) == 1 and isinstance(st.targets[0], ast.Name):
+            try:
+                ast.literal_eval(st.value)
+                CTX["consts"][st.targets[0].id] = st.value
+            except Exception:
+                pass
+        if isinstance(st, ast.FunctionDef) and st.args.args:
+            b = list(st.body)
+            if b and isinstance(b[0], ast.Expr) and isinstance(b[0].value, ast.Constant) and isinstance(b[0].value.value, str):
+                b = b[1:]
+            first = st.args.args[0].arg
+            if len(b) == 1 and isinstance(b[0], ast.If) and not b[0].orelse and isinstance(b[0].test, ast.Name) and b[0].test.id == first \
+                    and len(b[0].body) == 1 and isinstance(b[0].body[0], ast.Raise):
+                CTX["rejecters"].add(st.name)
     cls = next((n for n in tree.body if isinstance(n, ast.ClassDef) and n.name == "StreamableHTTPParameters"), None)
     report = {"file": "Gen/HttpParams.lean", "source": str(path), "untranslatable": [], "validators": {}}
     kinds, validators = {}, {}
